@@ -1,5 +1,5 @@
 from .. import common, mir
-from ..rules import c07, c11, c12, c11_r3
+from ..rules import c07, c11, c12, c11_r3, c18, dec
 
 
 def run(tier, replay=None):
@@ -15,6 +15,10 @@ def run(tier, replay=None):
         c11.run_gating(rep, crate, cfg)
         c11.run_dispatch(rep, crate, cfg)
         c07.run_constructors(rep, crate, cfg)
+        # std and no_std builds of Encoder::new agree on when a plan is (re)generated and for which count (C18-R4);
+        # the dense and the sparse branch of the decoder treat the outcome of an attempt alike (C02-R1/R2)
+        c18.run_plans(rep, crate, cfg)
+        dec.c02_block(rep, crate, cfg, dec.roles_sbd(crate))
         # every CPU path computes the same function: exact cover of the buffers and per-operation templates (C11-R2/R3)
         sub = common.Report("C12", tier)
         logs = c12.run(sub, crate, cfg)
